@@ -79,7 +79,8 @@ class Steps(Part):
     def describe(self, tier):
         k = 1 if tier == 'quick' else 2
         return (f'systems smib (GENCLS) and kundur_full; schedules {list(SCHEDULES)}; method x fixt x g_scale x honest x tstep in '
-                f'(1/30, 0.01); forced rejections: all subsets of size <= {k} of the first {self.K} step calls; tf = 0.4 s')
+                f'(1/30, 0.01); forced rejections: all subsets of size <= {k} of the first {self.K} step calls; tf = 0.4 s; each '
+                f'configuration also interrupted at 0.2 s and resumed (without and with one forced rejection after the resume)')
 
     def cases(self, tier):
         kmax = 1 if tier == 'quick' else 2
@@ -96,6 +97,10 @@ class Steps(Part):
                             continue
                     base = dict(sys=sysname, sched=sched, method=method, fixt=fixt, g_scale=gs, honest=honest, tstep=tstep)
                     out.append(dict(base, rejects=[]))
+                    # the same run interrupted at 0.2 s and resumed (second TDS.run with a larger tf): the steps after the
+                    # resume point are accepted steps like any other
+                    out.append(dict(base, rejects=[], resume=1))
+                    out.append(dict(base, rejects=[7], resume=1))
                     pts = range(self.K)
                     if tier == 'quick' and sched in ('trip+reclose',) and sysname == 'kundur':
                         pts = range(0, self.K, 2)
@@ -167,6 +172,10 @@ class Steps(Part):
                     bad('rejected_step_changed_f', f'step to t = {t!r} rejected but dae.f differs from before')
                 return ok
             calls['accepted'] += 1
+            # the point in time a step is taken to is the previous accepted time plus the step size used in the rule
+            if times and t > 0.0 and abs((t - times[-1]) - h) > 1e-9 * max(1.0, abs(t)):
+                bad('time_advance_differs_from_step_size', f'accepted step to t = {t!r} from t = {times[-1]!r} was integrated with '
+                    f'h = {h!r}')
             times.append(t)
             if t == 0.0 or h == 0.0:
                 return ok            # the t = 0 call integrates nothing
@@ -214,7 +223,19 @@ class Steps(Part):
             return ok
         tds.itm_step = wrapped
         try:
-            ok = tds.run(no_summary=True)
+            if case.get('resume'):
+                c.tf = 0.2
+                ok = tds.run(no_summary=True)
+                n_first = len(dae.ts.t)
+                last_first = (float(dae.ts.t[-1]), np.array(dae.ts.x[-1]).copy()) if n_first else None
+                c.tf = 0.4
+                ok = tds.run(no_summary=True) and ok
+                if last_first is not None and len(dae.ts.t) >= n_first:
+                    if float(dae.ts.t[n_first - 1]) != last_first[0] or not np.array_equal(np.array(dae.ts.x[n_first - 1]), last_first[1]):
+                        bad('stored_sample_changed_by_resume', f'the sample stored at t = {last_first[0]!r} before the interruption '
+                            f'is different after the run was resumed')
+            else:
+                ok = tds.run(no_summary=True)
         except Exception as e:
             import traceback
             tb = traceback.extract_tb(e.__traceback__)
